@@ -123,11 +123,14 @@ pub struct SemEval<'a> {
     pub ctx: &'a SemTypeContext,
     pub reading: Reading,
     pub fuel: std::cell::Cell<usize>,
+    /// the "absent optional property" tag read as the value `undefined` (right for a type that left its record through
+    /// T["k"]; wrong for the set operations themselves, where it would hide a universe that lost `undefined`)
+    pub optional_reads_undefined: bool,
 }
 
 impl<'a> SemEval<'a> {
     pub fn new(ctx: &'a SemTypeContext, reading: Reading) -> Self {
-        SemEval { ctx, reading, fuel: std::cell::Cell::new(20_000) }
+        SemEval { ctx, reading, fuel: std::cell::Cell::new(20_000), optional_reads_undefined: false }
     }
 
     /// None = cannot be decided by this evaluator (value kind outside the fragment, fuel exhausted)
@@ -153,7 +156,7 @@ impl<'a> SemEval<'a> {
             return Some(true);
         }
         // the "absent optional property" tag reads as `undefined` once it leaves its record (T["k"] for k?: ...)
-        if matches!(v, JsVal::Undef) && s.all & SubTypeTag::OptionalProp.code() != 0 {
+        if self.optional_reads_undefined && matches!(v, JsVal::Undef) && s.all & SubTypeTag::OptionalProp.code() != 0 {
             return Some(true);
         }
         for p in &s.subtype_data {
@@ -278,7 +281,7 @@ impl<'a> SemEval<'a> {
             _ => return None,
         };
         // positive atoms: constraints hold (open on keys, nested types positive)
-        let open_positive = SemEval { ctx: self.ctx, reading: Reading::Polar, fuel: std::cell::Cell::new(self.fuel.get()) };
+        let open_positive = SemEval { ctx: self.ctx, reading: Reading::Polar, fuel: std::cell::Cell::new(self.fuel.get()), optional_reads_undefined: self.optional_reads_undefined };
         for p in pos {
             if !open_positive.atom_with(p, v, true, false)? {
                 return Some(false);
@@ -957,7 +960,8 @@ pub fn handle_sem(req: &Value) -> Value {
             // the engine prunes with "exact positive, open negative" emptiness: the open reading is the one under
             // which a semantic type and its simplified materialisation must coincide value by value
             for reading in [Reading::Polar] {
-                let sev = SemEval::new(&ctx, reading);
+                let mut sev = SemEval::new(&ctx, reading);
+                sev.optional_reads_undefined = true;
                 let rev = RtEval::new(&all_defs, reading);
                 for v in &values {
                     let ms = match sev.member(&s, v) {
